@@ -69,6 +69,16 @@ DESCR = {
  "C07-d": ("inbound bytes are added to the selected pair only if the datagram travelled over that pair", "accepted datagram from another known remote / on another local candidate while one pair stays selected"),
  "C10-c": ("startConnectivityChecks releases the start mutex before its task-loop round trips (check-then-act)", "two start calls in flight at once, the second check before the first start task runs"),
  "C10-d": ("Binding indications are handled on the receive goroutine instead of as a loop task", "a Binding indication arriving while the remote candidate set changes (AddRemoteCandidate, Restart, Failed)"),
+ "C11-c": ("GracefulClose after a plain Close no longer waits for a running handler", "Close() while a handler runs, then GracefulClose() before the handler returns"),
+ "C11-d": ("relay gatherer's early return (TURN URL without credentials) skips the wait for allocations already started", "URL list [valid TURN, TURN without credentials]; the first allocation still in flight when the other gatherers finish"),
+ "C13-c": ("a context-bound write cancelled right after admission never leaves the in-flight count", "ctx cancelled between the two ctx checks of writeToContext; then any abortWrite; then any write"),
+ "C13-d": ("a cancelled reader returns before re-checking the queue, having consumed the shared wake-up token", "≥2 handles of one ufrag with reads parked; a packet's token goes to handle A's reader while A is being closed"),
+ "C14-c": ("framing decode buffer shared by all connections of one tcpPacketConn", "≥2 live TCP connections under one ufrag; a frame on one arriving in several segments with data on the other in between"),
+ "C14-d": ("oversize guard compares the payload with the maximum frame length (off by the header length)", "payload of exactly 65536 or 65537 bytes"),
+ "C15-c": ("writeStreamingPacket sends header and payload as two Write calls", "two concurrent WriteTo calls to the same peer, the second between the two writes of the first"),
+ "C15-d": ("IP family of an accepted connection taken from the length of the local IP", "dual-stack wildcard listener (16-byte IPv4-mapped local IP) with an IPv4 client"),
+ "C16-c": ("tcptype extension only interpreted when the transport token starts with tcp", "candidate marshalled as 'udp … tcptype x' (constructor with UDP network + TCP type, or mDNS host)"),
+ "C16-d": ("extensionsEqual tests 'other ⊆ own' instead of multiset equality", "parsed candidates whose equal-length extension lists repeat an identical entry"),
 }
 res = {}
 for ln in open('/verif/.work/confirm_results.txt'):
